@@ -1661,7 +1661,15 @@ def check(ck):
                 okd = False
                 continue
             dp = rb.deps(cx, dn)
-            okd = okd and ("param:" + P_CTX) in dp and ("param:" + P_REFS) in rb.deps(rf, dn)
+            rdp = set(rb.deps(rf, dn))
+            made_ = origin(rb, rf, dn)
+            if made_ is not None:
+                # a list that is created empty and filled: what is put into it is what it is made of
+                for c_ in rb.calls():
+                    if A.call_attr(c_) in ("append", "extend", "insert") and A.call_recv(c_) is not None and rb.nodes(c_) and c_.args \
+                            and same_def(origin(rb, A.call_recv(c_), rb.nodes(c_)[0]), made_):
+                        rdp |= rb.deps(c_.args[-1], rb.nodes(c_)[0])
+            okd = okd and ("param:" + P_CTX) in dp and ("param:" + P_REFS) in rdp
             if dn in after:
                 okd = okd and "call:update_recursive" in dp and "const:'context_args'" in dp
         ck.ob(R2, rb.key(d, "dispatch-args"), okd, "the updated context and references are dispatched" if okd else
